@@ -60,6 +60,9 @@ func policies() []policy {
 		{"allow-inside-block", v4, []string{"10.1.0.0/16"}, nil},
 		{"domains-anchored", v4, nil, []string{"^internal\\.example$"}},
 		{"domains-suffix", append(append([]string{}, v4...), v6...), nil, []string{".*\\.corp$", "localhost"}},
+		// patterns are regular expressions over the host text: they also apply to hosts that are address literals
+		{"domains-literal-text", nil, nil, []string{"^93\\.184\\.216\\.34$", "^fd12:", "^::ffff:", "^8\\.8\\."}},
+		{"domains-catch-all", nil, nil, []string{".*"}},
 	}
 }
 
